@@ -292,6 +292,11 @@ def rule_m2345(prog: Program, col: Collector) -> None:
     nft = fterms(prog, nref)
     ngp = ("param", nref.positional_params()[0])
     subs = [e for e in nft.calls("set_value") if e.recv == ngp and any(f[0] == "for" for f in e.ctx)]
+    cond_subs = [e for e in subs if any(f[0] == "if" and not (len(f) > 4 and f[4] == "implied") for f in e.ctx)]
+    col.check(not cond_subs, nref.where(cond_subs[0].node if cond_subs else None), nref.short,
+              "the singleton values are subtracted for every game (no shortcut that skips the subtraction pass)", construct="subtraction-conditional",
+              necessity="`the singleton values sum to zero` is not `they are all zero`: singletons of both signs that cancel (2, -2, 0) stay in the game - values outside [0, 1], "
+                        "singletons not 0, and the de-normaliser adds them a second time")
     oks = False
     for e in subs:
         v, c = e.args
